@@ -43,8 +43,17 @@ def sysroot():
 
 def tree_hash():
     """Hash of every tracked or untracked-unignored source file in /repo's working tree."""
-    out = subprocess.check_output(
-        ["git", "-C", REPO, "ls-files", "-z", "--cached", "--others", "--exclude-standard"])
+    if os.path.exists(os.path.join(REPO, ".git")):
+        out = subprocess.check_output(
+            ["git", "-C", REPO, "ls-files", "-z", "--cached", "--others", "--exclude-standard"])
+    else:
+        # scratch copy made by the thorough tier's self-test (no .git): every file below it
+        names = []
+        for root, dirs, files in os.walk(REPO):
+            dirs[:] = sorted(d for d in dirs if d not in ("target", ".git"))
+            for fn in files:
+                names.append(os.path.relpath(os.path.join(root, fn), REPO).encode())
+        out = b"\0".join(names)
     h = hashlib.sha256()
     n = 0
     for rel in sorted(set(out.split(b"\0"))):
